@@ -64,7 +64,7 @@ def list_one_intact(prog, rep, an):
     I1 = Form.atom(i1)
     for s in sums:
         adv = s.state.vals.get(i1, I1) - I1
-        apps = [c for c in s.calls if norm(c.func) == f"{acc}.append" and len(c.args) == 1 and norm(c.args[0]) == e1]
+        apps = [c for c in s.calls if norm(c.func) == f"{acc}.append" and len(c.args) == 1 and norm(c.args[0]) in (e1, f"{l1}[{i1}]")]
         cons = f"path lines {s.lines[-4:]}"
         if adv == Form(const=1):
             rep.check(len(apps) == 1, "L1-INTACT", fi.short, cons, f"{i1} += 1 paired with {acc}.append({e1})", f"list one's index advances on a path that appends its current event {len(apps)} times: an event of list one is dropped or duplicated", fi.loc(lp))
@@ -166,7 +166,7 @@ def cut_points(prog, rep, ctx):
         else:
             rep.undecided("CUT", fi.short, "overlap test", f"the trimming site at line {loose[0].lineno} is reachable without an intersects() test", fi.loc(loose[0]))
     if lp.body:
-        whole2 = [c for c in ast.walk(lp) if isinstance(c, ast.Call) and norm(c.func) == f"{acc}.append" and len(c.args) == 1 and norm(c.args[0]) == e2]
+        whole2 = [c for c in ast.walk(lp) if isinstance(c, ast.Call) and norm(c.func) == f"{acc}.append" and len(c.args) == 1 and norm(c.args[0]) in (e2, f"{l2}[{i2}]")]
         r_no = g.reach_filtered(g.node_of(lp.body[0]), lambda u, v, lab: not ((overlap_fact(lab) or (None, None))[0] == "overlap" and overlap_fact(lab)[1] is False))
         for c in whole2:
             rep.check(g.node_of(c) not in r_no, "CUT", fi.short, f"untrimmed {acc}.append({e2})", "only behind `not intersects`", f"a list-two event is emitted whole (line {c.lineno}) on a path that does not establish that it does not intersect the current list-one event (the routing test is stricter than Timeslot.intersects, e.g. it also demands a positive-length intersection): a zero-length or otherwise covered list-two event comes back although list one covers it", fi.loc(c))
@@ -205,7 +205,7 @@ def cut_points(prog, rep, ctx):
     for c in ast.walk(lp):
         if isinstance(c, ast.Call) and norm(c.func) == f"{acc}.append" and len(c.args) == 1:
             a0 = norm(c.args[0])
-            if a0 not in (e1, e2) and not (okB and a0 == first):
+            if a0 not in (e1, e2, f"{l1}[{i1}]", f"{l2}[{i2}]") and not (okB and a0 == first):
                 rep.violation("CUT", fi.short, f"{acc}.append({a0})", "something other than a list-one event, an untouched list-two event or a _split_event piece enters the result", fi.loc(c))
 
 
